@@ -128,7 +128,8 @@ pub struct Conn<F: FileSystem + Sync> {
     pub uid: u32,
     pub gid: u32,
     pub pid: u32,
-    /// reply buffer capacity
+    /// reply buffer capacity (default 128 KiB + 4096: the largest reply the monitors ask for is a 64 KiB READ;
+    /// the arena is pattern-filled per request, which dominates run time under ASan with a 1 MiB buffer)
     pub cap: usize,
     pub requests: u64,
     pub last: Option<Outcome>,
@@ -136,7 +137,7 @@ pub struct Conn<F: FileSystem + Sync> {
 
 impl<F: FileSystem + Sync> Conn<F> {
     pub fn new(fs: F) -> Conn<F> {
-        Conn { srv: Server::new(fs), sock: SeqSock::new(), unique: 1, uid: 0, gid: 0, pid: 1234, cap: (1 << 20) + 4096, requests: 0, last: None }
+        Conn { srv: Server::new(fs), sock: SeqSock::new(), unique: 1, uid: 0, gid: 0, pid: 1234, cap: (128 << 10) + 4096, requests: 0, last: None }
     }
     pub fn as_user(&mut self, uid: u32, gid: u32) {
         self.uid = uid;
